@@ -103,7 +103,8 @@ class Data:
                 self._frame.iloc[:, :] = self._X0
 
     def snapshot(self):
-        return (U.C.ahash(self.X), U.C.ahash(self.y), U.C.ahash(self.w), self.snapshot_frame())
+        parent = getattr(self, "_parent", None)
+        return (U.C.ahash(self.X), U.C.ahash(self.y), U.C.ahash(self.w), self.snapshot_frame(), None if parent is None else U.C.ahash(parent))
 
 
 def draw_data(ch, kind, label="A", n_lo=6, n_hi=40, allow_weights=True, n_min=None):
@@ -150,11 +151,36 @@ def draw_data(ch, kind, label="A", n_lo=6, n_hi=40, allow_weights=True, n_min=No
         desc["weights"] = True
     if ch.boolean("w", 0.15, "frame" + label):
         desc["as_frame"] = True
+    # memory layout / dtype of the caller's arrays: an in-place write or a
+    # dtype-dependent path may only exist for some of them
+    layout = ch.weighted("w", [("C", 6), ("F", 1), ("float32", 1), ("view", 1)], "xlayout" + label)
+    desc["x_layout"] = layout
+    if w is not None:
+        wkind = ch.weighted("w", [("float64", 4), ("int", 1), ("float32", 1)], "wdtype" + label)
+        desc["w_dtype"] = wkind
+        if wkind == "int":
+            w = numpy.maximum(numpy.round(w), 1).astype(numpy.int64)
+        elif wkind == "float32":
+            w = w.astype(numpy.float32)
     m = ch.integer("w", 1, 8, "m" + label)
     Xp = numpy.vstack([X[rs.permutation(n)[: min(m, n)]], rs.randn(m, d) * 1.5 + 0.1])
     if kind == "nonneg":
         Xp = numpy.abs(Xp) + 0.01
-    data = Data(kind, numpy.ascontiguousarray(X), y, w, numpy.ascontiguousarray(Xp), desc)
+    X = numpy.ascontiguousarray(X)
+    Xp = numpy.ascontiguousarray(Xp)
+    if layout == "F":
+        X = numpy.asfortranarray(X)
+    elif layout == "float32":
+        X = X.astype(numpy.float32)
+        Xp = Xp.astype(numpy.float32)
+    elif layout == "view":
+        parent = numpy.full((X.shape[0] * 2, X.shape[1] + 1), 7.25)
+        parent[::2, : X.shape[1]] = X
+        X = parent[::2, : X.shape[1]]  # a non-contiguous, writeable view
+        desc["_parent"] = True
+    data = Data(kind, X, y, w, Xp, desc)
+    if layout == "view":
+        data._parent = parent
     if desc.get("as_frame"):
         data.frame()  # exists before the first snapshot is taken
     return data
@@ -314,6 +340,17 @@ class SPiecewiseTreeRegressor(Spec):
     def build(self, cfg):
         return PiecewiseTreeRegressor(criterion=cfg["criterion"], max_depth=cfg["max_depth"], min_samples_leaf=cfg["min_samples_leaf"])
 
+    def data(self, ch, label="A"):
+        dt = Spec.data(self, ch, label)
+        # the compiled criteria take a C-contiguous float64 buffer only
+        if not (isinstance(dt.X, numpy.ndarray) and dt.X.dtype == numpy.float64 and dt.X.flags["C_CONTIGUOUS"]):
+            dt.X = numpy.ascontiguousarray(dt.X, dtype=numpy.float64)
+            dt.Xp = numpy.ascontiguousarray(dt.Xp, dtype=numpy.float64)
+            dt._X0 = dt.X.copy()
+            dt._parent = None
+            dt.desc["x_layout"] = "C (forced)"
+        return dt
+
     def fit_args(self, data, cfg=None):
         # sample weights with the linear criterion are not supported by the
         # compiled code in this environment (memoryview has no .sum)
@@ -353,8 +390,9 @@ class SDecisionTreeLogReg(Spec):
         while stack:
             node = stack.pop()
             prob = node.estimator.predict_proba(Xb)[:, 1]
-            mask |= numpy.abs(prob - node.threshold) < 1e-7
-            mask |= numpy.abs(prob - 0.5) < 1e-7
+            eps = 1e-4 if Xb.dtype == numpy.float32 else 1e-7
+            mask |= numpy.abs(prob - node.threshold) < eps
+            mask |= numpy.abs(prob - 0.5) < eps
             for ch in (node.above, node.below):
                 if ch is not None:
                     stack.append(ch)
